@@ -217,7 +217,7 @@ def array_descs(tier):
         out.append(desc("little", [DS, packet("P", [count("x", w), array("x", "DS")])], name="arr_dscnt%d" % w))
     # wide size fields in front of statically sized *struct* elements (capacity computed from the wire)
     for w in (24, 64):
-        out.append(desc("little", [SS3, E8, packet("P", [size("x", w), array("x", "SS3")])], name="arr_ss3siz%d" % w))
+        out.append(desc("little", [SS3, E8, packet("P", [size("x", w), array("x", "SS3")])], name="arr_ss3_siz%d" % w))
     # padding
     out.append(desc("little", [packet("P", [size("x", 4), reserved(4), array("x", 16), padding(16), scalar("t", 8)])],
                     name="pad_siz16"))
@@ -417,6 +417,19 @@ def inherit_descs(tier):
                                packet("WriteA", [scalar("z", 8)], parent="Cmd", cons=[cons("op", 2), cons("kind", "A")]),
                                packet("AnyC", [array("w", 8)], parent="Cmd", cons=[cons("kind", "C")])],
                     name="inh_cons_tuples"))
+    # one child subtree with two cases that look alike from the root: a grandchild constrained only on its parent's own
+    # field; two grandchildren under an unconstrained alias with the same constraint and different constant sizes
+    out.append(desc("little", [packet("Parent", [scalar("a", 8), payload()]),
+                               packet("Child1", [scalar("x", 8), payload()], parent="Parent", cons=[cons("a", 1)]),
+                               packet("Child2", [scalar("x", 16)], parent="Parent", cons=[cons("a", 2)]),
+                               packet("GrandChild1", [scalar("y", 12), reserved(4)], parent="Child1", cons=[cons("x", 42)])],
+                    name="inh_grandchild_local_cons"))
+    out.append(desc("little", [packet("Parent", [scalar("a", 8), payload()]),
+                               packet("Alias", [payload()], parent="Parent"),
+                               packet("Small", [scalar("x", 8)], parent="Alias", cons=[cons("a", 2)]),
+                               packet("Large", [scalar("x", 16)], parent="Alias", cons=[cons("a", 2)]),
+                               packet("Other", [scalar("x", 8)], parent="Parent", cons=[cons("a", 3)])],
+                    name="inh_alias_same_cons"))
     # constraint lists written in another order than the fields, same-typed fields bound to different values,
     # at one level and spread over two levels (child binds the later field, grandchild the earlier one)
     out.append(desc("little", [packet("Parent", [scalar("a", 8), scalar("b", 8), scalar("c", 16), scalar("d", 16), payload()]),
